@@ -11,13 +11,21 @@ from . import thir as T
 
 
 class Spec:
-    def __init__(self, F, max_depth=3, assume=None, follow_calls=False):
+    def __init__(self, F, max_depth=3, assume=None, follow_calls=False, enter_closures=False, scope=None):
         self.F = F
         self.max_depth = max_depth
         # follow_calls: reach() also lists the nodes of crate-local callees at the position of the call (parameters bound to
         # the constant arguments), so that order and presence questions do not depend on helper extraction
         self.follow_calls = follow_calls
         self.foreign = set()   # ids of nodes that reach() listed from followed callees
+        # enter_closures: a closure handed to a call is treated as executed at that call (`cond.then(|| ..)` only when cond is
+        # not known to be false); its nodes are listed as foreign (their `return` leaves the closure, not the function)
+        self.enter_closures = enter_closures
+        # scope: bodies in which `let f = |..| ..` bindings are looked up, so that calls `f(x)` of local closures are evaluated;
+        # arg_nodes[param id] = argument expression of the closure / helper call being evaluated (for hooks that need more than
+        # constants, e.g. a table handed to a predicate closure)
+        self.scope = scope or []
+        self.arg_nodes = {}
         # assume(node) -> constant | None : lets a rule fix the value of an expression that is not a variable
         # (e.g. "the scrutinee `edge.weight()` is an Edge::Jump")
         self.assume = assume
@@ -100,6 +108,36 @@ class Spec:
                 env2 = dict(env)
                 self.bind(arm["p"], c, env2)
                 return self.cev(arm["b"], env2, depth)
+            return None
+        if k == "Call" and n.get("n") in ("call", "call_mut", "call_once") and n.get("a") and self.scope and depth < self.max_depth:
+            f0 = T.peel(n["a"][0])
+            c = None
+            if f0.get("k") in ("Var", "Upvar"):
+                from . import bindsrc as B
+                for r_ in self.scope:
+                    src, how = B.binder(r_, f0["id"])
+                    if src is not None:
+                        sp_ = T.peel(src)
+                        if sp_.get("k") == "Closure":
+                            c = self.F.by_path.get(sp_.get("d"))
+                        break
+            if c is not None:
+                args = T.peel(n["a"][1]).get("es", []) if len(n["a"]) > 1 and T.peel(n["a"][1]).get("k") == "Tuple" else n["a"][1:]
+                params = [p_ for p_ in c["params"] if p_.get("p")]
+                if len(params) == len(args) + 1:
+                    params = params[1:]
+                env2 = dict(env)
+                if len(params) == len(args):
+                    for p_, a_ in zip(params, args):
+                        cc = self.cev(a_, env, depth)
+                        q = p_["p"]
+                        while q.get("k") == "Deref":
+                            q = q["p"]
+                        if q.get("k") == "Bind":
+                            self.arg_nodes[q["id"]] = a_
+                        if cc is not None:
+                            self.bind(p_["p"], cc, env2)
+                    return self.cev(c["body"], env2, depth + 1)
             return None
         if k == "Call" and n.get("n") in ("any", "all") and len(n.get("a", [])) == 2 and T.peel(n["a"][1]).get("k") == "Closure":
             # a predicate that has the same constant value for every element (scenario: the collection is not empty)
@@ -274,6 +312,20 @@ class Spec:
                 d = True
         if k == "Call" and T.diverges(n):
             return True
+        if k == "Call" and self.enter_closures:
+            skip = False
+            if n.get("n") in ("then", "then_some") and n.get("a"):
+                skip = self.cev(n["a"][0], env, depth) == ("bool", False)
+            if not skip:
+                for a_ in n.get("a", []):
+                    ap = T.peel(a_)
+                    if ap.get("k") == "Closure":
+                        c = self.F.by_path.get(ap.get("d"))
+                        if c is not None:
+                            before = len(out)
+                            self._reach(c["body"], dict(env), out, depth)
+                            for x in out[before:]:
+                                self.foreign.add(id(x))
         if k == "Call" and self.follow_calls and depth < self.max_depth:
             g = self.F.by_path.get(n.get("r") or "") or self.F.by_path.get(n.get("f") or "")
             if g is not None and g.get("dk") in ("Fn", "AssocFn") and len(g["params"]) == len(n.get("a", [])) and sum(1 for _ in T.walk(g["body"])) < 600:
